@@ -548,6 +548,11 @@ func (t *Term) render(arg func(*Term) string) string {
 	default:
 		panic("render: bad op")
 	}
+	if t.Op == OpConcat && StrAsInt {
+		// the empty string (code 0) is the unit of concatenation
+		a, b := arg(t.Args[0]), arg(t.Args[1])
+		return "(ite (= " + b + " 0) " + a + " (ite (= " + a + " 0) " + b + " (uf_concat " + a + " " + b + ")))"
+	}
 	var sb strings.Builder
 	sb.WriteByte('(')
 	sb.WriteString(op)
@@ -585,4 +590,13 @@ func CollectVars(t *Term, seen map[int]bool, out map[string]*Term) {
 	for _, a := range t.Args {
 		CollectVars(a, seen, out)
 	}
+}
+
+// StrToIntConst parses a decimal literal into an Int constant.
+func StrToIntConst(s string) *Term {
+	n, ok := new(big.Int).SetString(s, 10)
+	if !ok {
+		return IntC(0)
+	}
+	return BigC(n)
 }
